@@ -23,6 +23,7 @@ type Query struct {
 	Decls  string
 	Text   string
 	Params map[string]string // parameter name -> SMT constant holding its entry value
+	Broken string            // the contract clause cannot be evaluated on this tree (it names something that is gone): never discharged
 }
 
 type Exec struct {
